@@ -10,7 +10,7 @@ From Coq Require Import List Arith Bool Lia.
 Import ListNotations.
 From TP Require Import Global.Threads Global.ThreadsProofs Global.SharedName Global.SharedNameProofs
      Gen.SharedAccess Global.Cache Global.CacheProofs Global.Compose Global.ComposeProofs
-     Global.ClassModel Global.ClassModelProofs.
+     Global.ClassModel Global.ClassModelProofs Global.Toggle Global.ToggleProofs.
 
 (* The full statement, for the validators of the generated table: whatever the schedule, every
    thread validating the same field of the same class reads - hence returns - what it does alone.
@@ -110,28 +110,68 @@ Theorem C20_class_safe_all_schedules : forall es m0 tr i,
     obs_in m0 tr i = obs_seq m0 (nth i (class_threads es) []).
 Proof. exact class_safe_all_schedules. Qed.
 
+(* ---- save; write; use; restore on a shared name (a non-atomic toggle, Global/Toggle.v) ---- *)
+
+(* FIFO overlap of two such threads (two pre-emptions: the thread that entered first leaves first): the schedule
+   is an interleaving, the second thread USES the value the cell had before either of them, and whenever that
+   differs from the value it installed, this is what it uses in NO run alone, from any memory *)
+Theorem C20_toggle_fifo_witness : forall c v m0,
+    interleave [toggle c v; toggle c v] (fifo_trace c v) /\
+    used (obs_in m0 (fifo_trace c v) 1) = m0 c /\
+    (m0 c <> v -> forall m, used (obs_in m0 (fifo_trace c v) 1) <> used (obs_seq m (toggle c v))).
+Proof. exact toggle_fifo_witness. Qed.
+
+(* the nested (LIFO) overlap, also two pre-emptions, is harmless: why single pre-emptions never show it *)
+Theorem C20_toggle_lifo_harmless : forall c v m0,
+    used (obs_in m0 (lifo_trace c v) 0) = v /\ used (obs_in m0 (lifo_trace c v) 1) = v.
+Proof. exact toggle_lifo_harmless. Qed.
+
 (* ---- caches shared by all threads (Global/Cache.v; protocols generated into Gen/CacheAccess.v) ---- *)
 
-(* if every store of every protocol operating on a cache slot stores the completely computed value
-   (a function of the key alone), then under EVERY schedule - any number of threads, any number of
-   pre-emptions, each thread running any of the protocols - every thread that returns, returns the
-   computed value ... *)
+(* lookups that are ONE atomic step (dict.get, lru_cache, getattr with default); removals allowed: if every
+   store of every protocol operating on a cache slot stores the completely computed value (a function of the
+   key alone), then under EVERY schedule - any number of threads, any number of pre-emptions, each thread
+   running any of the protocols - every thread that returns, returns the computed value, and none raises *)
 Theorem C20_cache_final_safe : forall ps sched s i r,
-    forallb stores_final ps = true -> slot_ok s ->
+    forallb stores_final ps = true -> forallb no_read ps = true -> slot_ok s ->
     cresult (crun sched s (cstart ps)) i = Some r -> r = CFinal.
 Proof. exact cache_final_safe. Qed.
 
-(* ... which is what the protocol returns when it runs alone (and it leaves the slot empty or filled
-   with the computed value) *)
+(* check-then-read (`if key in cache: return cache[key]`: a membership test and a subscript read, two steps) is
+   safe as long as NOTHING is ever removed: with no removal site in any protocol no thread ever raises KeyError
+   and every thread that returns, returns the computed value - any schedule, any number of threads *)
+Theorem C20_cache_insert_only_safe : forall ps sched s i,
+    forallb stores_final ps = true -> forallb no_clear ps = true -> forallb guarded ps = true -> slot_ok s ->
+    cfailed (crun sched s (cstart ps)) i = false /\
+    forall r, cresult (crun sched s (cstart ps)) i = Some r -> r = CFinal.
+Proof. exact cache_insert_only_safe. Qed.
+
+(* ... and ONLY then: next to a removal site (cache.clear(), pop, del - in a thread working on ANY key) the
+   constructed schedule - reader up to and including its membership test, the other thread up to and including
+   its removal, the reader's read - makes the reader raise, although the key was there when it tested *)
+Theorem C20_cache_removal_witness : forall loc rest pre post v,
+    only_local loc = true -> only_local pre = true ->
+    cfailed (crun (removal_sched loc pre) (Some v)
+                  (cstart [loc ++ CCheck :: CRead :: rest; pre ++ CClear :: post])) 0 = true.
+Proof. exact cache_removal_witness. Qed.
+
+(* the two safe modes together (what the classifier accepts), and the sequential reference: the protocol
+   running alone returns the computed value and leaves the slot empty or filled with it *)
+Theorem C20_cache_protocols_safe : forall ps sched s i,
+    protocols_safe ps = true -> slot_ok s ->
+    cfailed (crun sched s (cstart ps)) i = false /\
+    forall r, cresult (crun sched s (cstart ps)) i = Some r -> r = CFinal.
+Proof. exact cache_protocols_safe. Qed.
+
 Theorem C20_cache_final_alone : forall p s,
-    stores_final p = true -> slot_ok s ->
-    snd (calone s p) = CFinal /\ slot_ok (fst (calone s p)).
+    protocols_safe [p] = true -> slot_ok s ->
+    snd (calone s p) = Some CFinal /\ slot_ok (fst (calone s p)).
 Proof. exact cache_final_alone. Qed.
 
 (* total correctness: whatever the other threads do, a thread that is scheduled often enough (the length of
    its protocol + 1 times) HAS returned, and has returned the completely computed value *)
 Theorem C20_cache_final_complete : forall ps sched s i p,
-    forallb stores_final ps = true -> slot_ok s ->
+    protocols_safe ps = true -> slot_ok s ->
     nth_error ps i = Some p ->
     S (length p) <= count_occ Nat.eq_dec sched i ->
     cresult (crun sched s (cstart ps)) i = Some CFinal.
@@ -147,35 +187,51 @@ Proof. exact krun_project. Qed.
 (* ... hence the single-slot theorem holds for the whole cache: any keys, any threads, any schedule *)
 Theorem C20_cache_keyed_final_safe : forall kps sched m i r,
     forallb (fun kp : nat * cprog => stores_final (snd kp)) kps = true ->
+    forallb (fun kp : nat * cprog => no_read (snd kp)) kps = true ->
     (forall k, slot_ok (m k)) ->
     kresult (krun sched m (kstart kps)) i = Some r -> r = CFinal.
 Proof. exact cache_keyed_final_safe. Qed.
 
 (* `calone` is the small-step semantics with only that thread scheduled *)
 Theorem C20_cache_alone_is_run : forall p s,
-    crun (repeat 0 (S (length p))) s [Running p] = (fst (calone s p), [Done (snd (calone s p))]).
+    crun (repeat 0 (S (length p))) s [Running p] = (fst (calone s p), [tstate_of (snd (calone s p))]).
 Proof. exact calone_is_crun. Qed.
 
 (* a protocol whose first store puts anything else into the slot (a placeholder, a partially built
-   value): under the constructed schedule a second thread that looks the slot up RETURNS that value *)
+   value): under the constructed schedule a second thread that looks the slot up RETURNS that value
+   (atomic lookup / membership test followed by a read) *)
 Theorem C20_cache_placeholder_witness : forall pre tag post loc rest,
-    no_store pre = true -> only_local loc = true ->
+    no_store pre = true -> plain pre = true -> only_local loc = true ->
     cresult (crun (placeholder_sched pre loc) None
                   (cstart [pre ++ CStore (COther tag) :: post; loc ++ CLookup :: rest])) 1
     = Some (COther tag).
 Proof. exact cache_placeholder_witness. Qed.
 
+Theorem C20_cache_placeholder_witness_cr : forall pre tag post loc rest,
+    no_store pre = true -> plain pre = true -> only_local loc = true ->
+    cresult (crun (repeat 0 (S (length pre)) ++ repeat 1 (S (S (length loc)))) None
+                  (cstart [pre ++ CStore (COther tag) :: post; loc ++ CCheck :: CRead :: rest])) 1
+    = Some (COther tag).
+Proof. exact cache_placeholder_witness_cr. Qed.
+
 (* applied to ANY generated table entry through the vm_compute-decided classification *)
-Theorem C20_cache_classified_safe : forall ps sched s i r,
+Theorem C20_cache_classified_safe : forall ps sched s i,
     cache_classify ps = CacheSafe -> slot_ok s ->
-    cresult (crun sched s (cstart ps)) i = Some r -> r = CFinal.
+    cfailed (crun sched s (cstart ps)) i = false /\
+    forall r, cresult (crun sched s (cstart ps)) i = Some r -> r = CFinal.
 Proof. exact cache_classified_safe. Qed.
 
 Theorem C20_cache_classified_racy : forall ps,
     cache_classify ps = CacheRacy ->
-    exists p q, In p ps /\ In q ps /\
-                exists sched tag, cresult (crun sched None (cstart [p; q])) 1 = Some (COther tag).
+    (exists p q, In p ps /\ In q ps /\ cache_classify2 p q = CacheRacy) \/
+    (exists p q, In p ps /\ In q ps /\
+                 forall v, exists sched, cfailed (crun sched (Some v) (cstart [p; foreign_view q])) 0 = true).
 Proof. exact cache_classified_racy. Qed.
+
+Theorem C20_cache_placeholder_racy : forall p q,
+    cache_classify2 p q = CacheRacy -> placeholder_ready p = true ->
+    exists sched tag, cresult (crun sched None (cstart [p; q])) 1 = Some (COther tag).
+Proof. exact cache_classify2_racy. Qed.
 
 Theorem C20_cache_safe_excludes_witness : forall ps sched i tag,
     cache_classify ps = CacheSafe ->
@@ -195,15 +251,22 @@ Print Assumptions C20_compose_safe.
 Print Assumptions C20_shift_invariant.
 Print Assumptions C20_composed_all_schedules.
 Print Assumptions C20_class_safe_all_schedules.
+Print Assumptions C20_toggle_fifo_witness.
+Print Assumptions C20_toggle_lifo_harmless.
 Print Assumptions C20_cache_final_safe.
+Print Assumptions C20_cache_insert_only_safe.
+Print Assumptions C20_cache_removal_witness.
+Print Assumptions C20_cache_protocols_safe.
 Print Assumptions C20_cache_final_alone.
 Print Assumptions C20_cache_final_complete.
 Print Assumptions C20_cache_keys_independent.
 Print Assumptions C20_cache_keyed_final_safe.
 Print Assumptions C20_cache_alone_is_run.
 Print Assumptions C20_cache_placeholder_witness.
+Print Assumptions C20_cache_placeholder_witness_cr.
 Print Assumptions C20_cache_classified_safe.
 Print Assumptions C20_cache_classified_racy.
+Print Assumptions C20_cache_placeholder_racy.
 Print Assumptions C20_cache_safe_excludes_witness.
 
 (* non-vacuity: three threads; cell 1 is written by all with the same constant before being read,
@@ -237,16 +300,25 @@ Proof. eexists. eexists. vm_compute. reflexivity. Qed.
    value; the same protocol with a placeholder reserved first is classified racy and the constructed
    schedule makes the second thread return the placeholder *)
 Example C20_cache_nonvacuous :
-  let p := [CLookup; CLocal; CStore CFinal] in
-  stores_final p = true /\ cache_classify [p] = CacheSafe /\
-  crun [0; 1; 2; 0; 1; 2; 0; 1; 2; 0; 1; 2] None (cstart [p; p; p])
+  let p := [CCheck; CRead; CLocal; CStore CFinal] in
+  protocols_safe [p] = true /\ cache_classify [p] = CacheSafe /\
+  crun [0; 1; 2; 0; 1; 2; 0; 1; 2; 0; 1; 2; 0; 1; 2] None (cstart [p; p; p])
   = (Some CFinal, [Done CFinal; Done CFinal; Done CFinal]).
 Proof. vm_compute. repeat split; reflexivity. Qed.
 
 Example C20_cache_witness_nonvacuous :
   let p := [CLookup; CStore (COther 263); CLocal; CStore CFinal] in
-  cache_classify [p] = CacheRacy /\ snd (calone None p) = CFinal /\
+  cache_classify [p] = CacheRacy /\ snd (calone None p) = Some CFinal /\
   cresult (crun (placeholder_sched [CLookup] []) None (cstart [p; p])) 1 = Some (COther 263).
+Proof. vm_compute. repeat split; reflexivity. Qed.
+
+(* removal, non-vacuity: the aggregated-mapper protocol with a bounded cache (`cache.clear()` before the store):
+   classified racy, it returns the computed value alone, and under the constructed schedule the reader raises *)
+Example C20_cache_removal_nonvacuous :
+  let p := [CCheck; CRead; CLocal; CClear; CStore CFinal] in
+  cache_classify [p] = CacheRacy /\ removal_witness [p] = Some (0, 1, 0, 4) /\
+  snd (calone (Some CFinal) p) = Some CFinal /\ snd (calone None p) = Some CFinal /\
+  cfailed (crun (removal_sched [] [CLocal; CLocal; CLocal]) (Some CFinal) (cstart [p; foreign_view p])) 0 = true.
 Proof. vm_compute. repeat split; reflexivity. Qed.
 
 (* many keys, non-vacuity: two threads on key 1 (one of them reserving a placeholder) and one thread on key 2:
